@@ -284,10 +284,13 @@ pub async fn copy_bidi(ctx: ContextRef, params: &IoParams) -> Result<(), Error> 
             {
                 let craw = into_owned_fd(client);
                 let sraw = into_owned_fd(server);
-                csrc.rawfd = Some(AsyncFd::new(craw.try_clone().unwrap()).unwrap());
-                cdst.rawfd = Some(AsyncFd::new(craw).unwrap());
-                ssrc.rawfd = Some(AsyncFd::new(sraw.try_clone().unwrap()).unwrap());
-                sdst.rawfd = Some(AsyncFd::new(sraw).unwrap());
+                // dup(2) and the registration can fail (descriptor exhaustion): that ends this tunnel, not the process
+                let async_fd = |fd| AsyncFd::new(fd).context("register splice descriptor");
+                let dup = |fd: &OwnedFd| fd.try_clone().context("duplicate splice descriptor");
+                csrc.rawfd = Some(async_fd(dup(&craw)?)?);
+                cdst.rawfd = Some(async_fd(craw)?);
+                ssrc.rawfd = Some(async_fd(dup(&sraw)?)?);
+                sdst.rawfd = Some(async_fd(sraw)?);
             }
         } else {
             let (csr, csw) = tokio::io::split(client);
